@@ -45,6 +45,10 @@ Theorem C20_paths_nonvacuous : paths_nonvacuous = true. Proof. exact paths_are_n
 Theorem C20_encoder_reports_the_frame_bytes : cdf_size_reported codecfacts_now = true.
 Proof. exact codec_size_reported. Qed.
 
+(* on every path through the function body as it is in the source now (regenerated into Generated.body_census, enumerated by Model/Paths.v) of NetworkInstrumenter.Finish: at most one Put, under the lock, none on the path that refuses *)
+Theorem C20_source_finish_paths : finish_paths_once = true.
+Proof. exact paths_finish_once. Qed.
+
 Print Assumptions C20_one_record_per_instrumenter.
 Print Assumptions C20_second_finish_refused.
 Print Assumptions C20_recorded_size_is_sum.
@@ -56,3 +60,4 @@ Print Assumptions C20_never_accounted_twice.
 Print Assumptions C20_serve_paths_reply.
 Print Assumptions C20_paths_nonvacuous.
 Print Assumptions C20_encoder_reports_the_frame_bytes.
+Print Assumptions C20_source_finish_paths.
